@@ -5,6 +5,18 @@ ROOT = os.path.dirname(os.path.dirname(os.path.abspath(__file__)))
 ids = [json.loads(l)["id"] for l in open(os.path.join(ROOT, "properties.jsonl"))]
 
 CLAIMED = {
+ "C16": dict(
+   text="Lean 4 theorems over Model/Jwk.lean: int_b64_roundtrip (∀ n>0, via the Base64 round trip and beNat∘minBE = id), rsa_members_minimal_length "
+        "(no leading zero octet, ∀ n), ec_members_full_length / ec_coord_roundtrip / ec_coord_decodes_to_full_length (fixed width, ∀ n < 256^len), "
+        "public_export_only_public_members and public_export_has_no_private_member (∀ member lists, over the PUBLIC/PRIVATE_KEY_FIELDS lists regenerated from "
+        "the key classes), private_export_of_public_is_error, thumbprint_members_eq_rfc7638 (regenerated REQUIRED_JSON_FIELDS sort to the RFC 7638 member order). "
+        "Correspondence: int_to_base64/base64_to_int/_coordinate_to_base64/as_dict/thumbprint (SHA-256 native in Lean) against the compiled model; "
+        "key-level oracle: every key type/curve/size × import form × private/public exported as dict/JSON/PEM/DER/encrypted PEM, re-imported and compared with "
+        "the original cryptography object, RFC 7518 member encodings and RFC 7638 thumbprints computed independently, EC keys with a leading-zero coordinate forced per curve.",
+   note="Trusted: Lean kernel; PEM/DER codecs, key generation, RSA d-only reconstruction are cryptography primitives (exercised only); as_dict modelled for string members; "
+        "OctKey.as_dict always carries k (observation, DESIGN §3.2).",
+   technique="Lean 4 proof (encodings for all integers, export filter for all member lists) + regenerated field lists + differential correspondence + independent RFC 7518/7638 oracle",
+   design="§4 C16"),
  "C02": dict(
    text="Lean 4 theorems over Model/KeyPolicy.lean (crit check, missing/allowed/registered alg, key selection by kid for KeySet objects and dict key sets, "
         "family and curve check, check_key_op): verified_implies_policy (a key reaches signature verification only if alg is named, registered, allowed, "
